@@ -694,9 +694,70 @@ class Ctx:
         self.solver.pop()
         return r != z3.unsat
 
+    def _flat_mul(self, t):
+        if z3.is_mul(t):
+            out = []
+            for ch in t.children():
+                out.extend(self._flat_mul(ch))
+            return out
+        return [t]
+
+    def product_congruence(self, cond):
+        """If cond is  f1*...*fn == g1*...*gn  and the factors can be paired so that each pair is
+        entailed equal by the path condition, the equality holds (AC-congruence of *)."""
+        if not (z3.is_eq(cond) and cond.num_args() == 2):
+            return False
+        l, r = cond.children()
+        if not (z3.is_int(l) and (z3.is_mul(l) or z3.is_mul(r))):
+            return False
+        fl, fr = self._flat_mul(l), self._flat_mul(r)
+        nl = [f for f in fl if not z3.is_int_value(f)]
+        nr = [f for f in fr if not z3.is_int_value(f)]
+        cl = 1
+        for f in fl:
+            if z3.is_int_value(f):
+                cl *= f.as_long()
+        cr = 1
+        for f in fr:
+            if z3.is_int_value(f):
+                cr *= f.as_long()
+        # drop factors entailed to be 1 (e.g. a channel count fixed to 1)
+        def strip_ones(fs):
+            return [f for f in fs if self._feasible(f != 1)]
+        if len(nl) != len(nr):
+            nl, nr = strip_ones(nl), strip_ones(nr)
+        if cl != cr or len(nl) != len(nr) or len(nl) > 6:
+            return False
+        used = set()
+        for f in nl:
+            hit = None
+            for j, g in enumerate(nr):
+                if j in used:
+                    continue
+                if f.get_id() == g.get_id() or not self._feasible(f != g):
+                    hit = j
+                    break
+            if hit is None:
+                return False
+            used.add(hit)
+        return True
+
     def fork(self, cond):
         """Decide a symbolic branch. Returns the python bool taken on this path."""
+        raw = cond
         cond = z3.simplify(cond)
+        if not z3.is_true(cond) and not z3.is_false(cond) and self.pos >= len(self.decisions):
+            neg = z3.is_not(raw)
+            inner = raw.children()[0] if neg else raw
+            if z3.is_eq(inner) and self.product_congruence(inner):
+                self.note("product equalities decided by factor-wise entailment (AC-congruence tactic)")
+                self.tactic_proved = getattr(self, "tactic_proved", 0) + 1
+                cond = z3.BoolVal(not neg)
+                self.decisions.append(not neg)
+                self.sibling_ok[self.pos] = False
+                self.pos += 1
+                self.assume(inner)
+                return not neg
         if z3.is_true(cond):
             return True
         if z3.is_false(cond):
